@@ -171,6 +171,7 @@ struct Outcome {
     max_error_line: u64,
     asked_after_none: u64,
     line_longer_than_buffer: bool,
+    longest_line: usize,
     /// sequence of (kind, bytes consumed at that point): the observable history
     history_hash: u64,
 }
@@ -209,7 +210,7 @@ fn run_case(case: &Case, scratch: Option<&Path>) -> Outcome {
     let mut out = Outcome {
         violation: None, trace: vec![], stats: ReadStats::default(), items: 0, delivered_ok: 0, delivered_err: 0,
         hard_fired_at_call: None, rows_after_hard_error: 0, of_which_not_in_file: 0, max_error_line: 0, asked_after_none: 0,
-        line_longer_than_buffer: data.split(|b| *b == b'\n').any(|l| l.len() > 8192), history_hash: 0,
+        line_longer_than_buffer: data.split(|b| *b == b'\n').any(|l| l.len() > 8192), longest_line: data.split(|b| *b == b'\n').map(|l| l.len() + 1).max().unwrap_or(0), history_hash: 0,
     };
     let max_calls = expected.len() + 8;
     let mut hh = hash_bytes(&data);
@@ -575,6 +576,15 @@ fn worker(seed: u64, from: u64, to: u64, tier: &str, scratch: &Path) -> (Value, 
         }
         if o.line_longer_than_buffer {
             bump("probe_line_longer_than_bufreader", 1);
+        }
+        if o.longest_line > 65_536 {
+            bump("probe_line_longer_than_64KiB", 1);
+        }
+        if o.longest_line > 1_048_576 {
+            bump("probe_line_longer_than_1MiB", 1);
+        }
+        if o.longest_line >= 1023 && (o.longest_line + 1).next_power_of_two() - o.longest_line <= 2 || o.longest_line.is_power_of_two() {
+            bump("probe_longest_line_within_1_of_power_of_two", 1);
         }
         bump("probe_item_after_none_requested", o.asked_after_none);
         distinct.insert(o.history_hash);
